@@ -189,6 +189,21 @@ impl Probe {
     }
 }
 
+/// BLAKE3 of the compact `{:?}` rendering of a value, streamed (no intermediate string):
+/// a complete fingerprint of everything the derived Debug implementation shows.
+pub fn debug_hash<T: Debug + ?Sized>(x: &T) -> [u8; 32] {
+    struct W(blake3::Hasher);
+    impl std::fmt::Write for W {
+        fn write_str(&mut self, s: &str) -> std::fmt::Result {
+            self.0.update(s.as_bytes());
+            Ok(())
+        }
+    }
+    let mut w = W(blake3::Hasher::new());
+    let _ = std::fmt::write(&mut w, format_args!("{x:?}"));
+    *w.0.finalize().as_bytes()
+}
+
 pub fn h64(bytes: &[u8]) -> u64 {
     let h = blake3::hash(bytes);
     u64::from_le_bytes(h.as_bytes()[..8].try_into().unwrap())
